@@ -208,3 +208,25 @@ def c06_genvec(rng, tier):
             ps.append(p)
         yield {"call": lambda design_parameters: VectorAndNumbers.gen_vector(design_parameters), "args": {"design_parameters": ps},
                "label": "#%d %r" % (k, ps)}
+
+
+@scenario("artap.algorithm_sweep:SweepAlgorithm.run", bound="custom generators with <= 6 vectors, repeated vectors included")
+def c05_sweep(rng, tier):
+    from artap.algorithm_sweep import SweepAlgorithm
+    from artap.operators import CustomGenerator
+    import contextlib, io
+    for k in range(30 if tier == "quick" else 400):
+        p = _problem([], None)
+        pool = [[rng.uniform(-2, 3), rng.uniform(0.5, 0.75)] for _ in range(3)]
+        vectors = [list(rng.choice(pool)) for _ in range(rng.randint(0, 6))]      # repeats are likely
+        g = CustomGenerator(p.parameters)
+        g.init(vectors)
+        a = SweepAlgorithm(p, g)
+        a.options['max_processes'] = 1
+        a.options['verbose_level'] = 0
+
+        def call(self):
+            with contextlib.redirect_stdout(io.StringIO()):
+                return self.run()
+        yield {"call": call, "args": {"self": a}, "post_extra": lambda args, result, vectors=vectors: {"gvecs": vectors},
+               "label": "vectors=%r" % ([[round(c, 3) for c in v] for v in vectors],)}
